@@ -12,8 +12,9 @@ cp _seeded/meta.json $OUT/meta.agent.json
 {
 echo "== demo WITH the change (expect exit 1)"; timeout 900 /venv/bin/python _seeded/demo.py 2>&1 | grep -v Warning | tail -15; echo "exit=${PIPESTATUS[0]}"
 echo "== test suite WITH the change"; timeout 7200 /venv/bin/python -m pytest -q -p no:cacheprovider --timeout=1800 2>&1 | tail -6
-git stash -q
+# (no git stash here: the stash is shared by all worktrees of a repository, and other sub-agents may be using it)
+git apply -R $OUT/patch.diff
 echo "== demo WITHOUT the change (expect exit 0)"; timeout 900 /venv/bin/python _seeded/demo.py 2>&1 | grep -v Warning | tail -5; echo "exit=${PIPESTATUS[0]}"
-git stash pop -q
+git apply $OUT/patch.diff
 } > $OUT/confirm.log 2>&1
 echo done >> $OUT/confirm.log
